@@ -259,6 +259,18 @@ class SimQueue(object):
     self.unfinished_tasks = 0
     self._label = _label(self.kind)
 
+  # what the real class exposes besides its methods (code that peeks at the backlog uses them)
+  @property
+  def queue(self):
+    return self._items
+
+  @property
+  def mutex(self):
+    m = self.__dict__.get('_mutex')
+    if m is None:
+      m = self.__dict__['_mutex'] = SimLock()
+    return m
+
   # storage discipline (overridden by the priority queue)
   def _init(self):
     self._items = collections.deque()
@@ -408,7 +420,7 @@ class SimPriorityQueue(SimQueue):
     return item
 
   def _describe(self, item):
-    return (getattr(item, 'priority', None), self._stamp.get(id(item)))
+    return (getattr(item, 'priority', None), self._stamp.get(id(item)), getattr(getattr(item, 'event', None), 'payload', None))
 
 
 class SimLifoQueue(SimQueue):
